@@ -51,6 +51,7 @@ def runCase (k : Consts) (cfg : Cfg) (target : Str) (t : DevTree) (searches : Li
     stopTime := match ann with
       | some a => if a.stopped then some a.upto else none
       | none => none,
+    annUpto := ann.map (·.upto),
     byebyes := match ann with
       | some a => if a.stopped then (byebyes t).map (obsByebye cfg target a.upto) else []
       | none => [] }
